@@ -76,6 +76,7 @@ def why(case, impl):
     if impl.startswith(("PANIC", "CRASH", "HANG", "SKIPPED")):
         return "crash"
     codec, _, _, _, ops = case.split(";")
+    codec = codec.split("+")[0]      # "+x": conversions before every call must not change anything
     optoks = ops.split(",") if ops else []
     body, _, fin = impl.rpartition("|B")
     ents = body.split(";") if body else []
@@ -265,6 +266,7 @@ def to_coq(case, model):
     if "#" in model or len(case) > 120:
         return None
     codec, w, f, s, ops = case.split(";")
+    codec = codec.split("+")[0]
     optoks = ops.split(",") if ops else []
     gops = []
     for t in optoks:
@@ -329,4 +331,19 @@ def streams(ctx):
                 to_coq=to_coq, coq_imports="From AN Require Import Model.Lines Model.Framed.", timeout=300 if quick else 1500,
                 describe="%d random runs of 1..7 calls with items of 0..5 bytes and accepts of 0,1,2,3,5,100 bytes; a sample is "
                          "re-evaluated inside Coq with vm_compute (extraction guard)" % ns)
-    return [s1, s2, s3]
+    # the state-preserving conversions (into_parts/from_parts, into_map_io, into_map_codec) before every Sink call
+    pool = list(enum) + rnd[:3000 if quick else 60000]
+    rng.shuffle(pool)
+    conv = [c.replace(";", "+x;", 1) for c in pool[:4000 if quick else 80000]]
+    # partial writes that leave a remainder in a buffer whose capacity has shrunk (advance) before the conversion
+    for big in (8000, 8192, 7500, 9000, 16000):
+        for acc in (7168, 7169, 7600, 8000, 8191, 1, 1024):
+            for tail in ("f", "c", "s100x2,f", "r,s5x1,c"):
+                conv.append("bytes+x;a%d,p;;;s%dx1,f,%s" % (acc, big, tail))
+                conv.append("lines+x;a%d,p,a3,p;;;s%dx3,f,%s" % (acc, big, tail))
+    s4 = Stream("c14conv", "c14", conv, monitor=monitor, nontrivial=nontrivial, shrink=shrink, finding_key=finding_key,
+                timeout=300 if quick else 1500,
+                describe="%d cases of the other streams re-run with Framed::from_parts(into_parts()), into_map_io and into_map_codec applied "
+                         "before every Sink call, plus large partial writes followed by a conversion; the model is unchanged by construction "
+                         "(conversions carry write_buf, read_buf and flags over)" % len(conv))
+    return [s1, s2, s3, s4]
